@@ -222,6 +222,20 @@ def body_along(case):
         lat0, lon0 = g.find_lat_long_along_traj(np.zeros(k))
     off0 = angle(N, unit(np.asarray(lat0, dtype=float), np.asarray(lon0, dtype=float)))
     require(bool(np.all(off0 <= tol_off)), f"s = 0 does not return the ground spot (offset {off0.max():.3e} rad)")
+    # several points along every kept trajectory at once: a (K, N) grid of distances gives, row by row, what the K
+    # one-dimensional calls give
+    if case.get("grid_rows"):
+        K_ = int(case["grid_rows"])
+        grid_s = np.stack([s * (0.25 + 0.5 * j) for j in range(K_)])
+        with cut(f"find_lat_long_along_traj(({K_}, {k}) grid of distances)"):
+            la_g, lo_g = [np.asarray(x, dtype=float) for x in g.find_lat_long_along_traj(grid_s)]
+        require(la_g.shape == (K_, k) and lo_g.shape == (K_, k), f"a ({K_}, {k}) grid of distances gives positions of shape {la_g.shape}")
+        for j in range(K_):
+            with cut("find_lat_long_along_traj(one row of the grid)"):
+                la_r, lo_r = [np.asarray(x, dtype=float) for x in g.find_lat_long_along_traj(grid_s[j].copy())]
+            d_ = angle(unit(la_g[j], lo_g[j]), unit(la_r, lo_r))
+            require(bool(np.all(d_ <= 1e-12)), f"row {j} of a ({K_}, {k}) grid of distances gives other positions than the same distances on their own (angular difference up to {float(np.max(d_)):.3e} rad)")
+        labels.add("distance_grid")
     # whole-kilometre distances handed over in a narrow numeric dtype (int8 .. int64, unsigned, float32, Python ints):
     # the positions of the same numbers given as float64
     dt = case.get("s_dtype")
@@ -368,7 +382,7 @@ SUBCHECKS = [
     ),
     SubCheck(
         "along_traj",
-        st.fixed_dictionaries({"cfg": gc.geom_config(), "u": gc.points(4, 48), "s": st.lists(dist, min_size=1, max_size=8), "s_dtype": st.sampled_from([None, "int64", "int32", "int16", "int8", "uint8", "uint16", "uint32", "float32", "pylist"])}),
+        st.fixed_dictionaries({"cfg": gc.geom_config(), "u": gc.points(4, 48), "s": st.lists(dist, min_size=1, max_size=8), "grid_rows": st.sampled_from([None, None, 2, 3, 5]), "s_dtype": st.sampled_from([None, "int64", "int32", "int16", "int8", "uint8", "uint16", "uint32", "float32", "pylist"])}),
         body_along,
         _nt,
         {"quick": 1200, "thorough": 40000},
